@@ -15,11 +15,14 @@ static long nfail;
 static int apply(const struct ecimpl *im, int len, int k, int rows, int vec_i, uint8_t *tbl, uint8_t *src, uint8_t **dst)
 {
 	v_pcall_mode = 1 + (len & 1); /* kernel entered with poisoned caller-saved registers (engine/pcall.S) */
+	/* the destination pointer array is exactly `rows` entries long and ends at an inaccessible page */
+	uint8_t **dstv = g_alloc(rows * sizeof(uint8_t *), G_END);
+	memcpy(dstv, dst, rows * sizeof(uint8_t *));
 	if (V_TRY()) {
 		switch (im->kind) {
 		case K_MAD1: PCALL(im->fn, len, k, vec_i, tbl, src, dst[0]); break;
-		case K_MADN: PCALL(im->fn, len, k, vec_i, tbl, src, dst); break;
-		default: PCALL(im->fn, len, k, rows, vec_i, tbl, src, dst); break;
+		case K_MADN: PCALL(im->fn, len, k, vec_i, tbl, src, dstv); break;
+		default: PCALL(im->fn, len, k, rows, vec_i, tbl, src, dstv); break;
 		}
 		V_END();
 		return 0;
